@@ -77,3 +77,18 @@ Proof.
       rewrite (Z.mod_small (cb_off b + 4)) by lia. reflexivity.
     + split; [reflexivity|]. intros N. exfalso. apply N. reflexivity.
 Qed.
+
+(* ares_buf_append_start: NULL for a zero request or a failed ensure_space, otherwise the write
+   pointer and the room that is left (alloc - data_len - 1), exactly as the generated text
+   computes them from what ares_buf_ensure_space left behind *)
+Theorem buf_append_start_agrees_generated junk ok b len ptr r :
+  ptr <> 0 ->
+  (len =? 0) = false -> buf_ensure_space junk ok b len = Ok r ->
+  exists o,
+    buf_append_start junk ok b len = Ok (o, snd r) /\
+    c_ares_buf_append_start len (fst r) (cb_alloc (snd r)) (cb_dlen (snd r)) ptr
+      = Ok (match o with Some _ => ptr | None => 0 end, match o with Some n => n | None => len end).
+Proof.
+  intros Hp Hl E. unfold buf_append_start, c_ares_buf_append_start. rewrite Hl, E. cbn [bind].
+  destruct (negb (fst r =? ARES_SUCCESS)); eexists; split; reflexivity.
+Qed.
